@@ -37,7 +37,7 @@ def generator_coherence(ctx, rule="R11.1"):
     ):
         ci = prog.cls(GEN, cname)
         # every edge must still be grounded in an assignment site of the derived field that reads the source
-        st = state.coherence(ctx, rule, ci, edges, type_assumptions={"model": "CovModel"}, rel=GEN, **kw)
+        st = state.coherence(ctx, rule, ci, edges, type_assumptions={"model": "CovModel"}, rel=GEN, raise_exits=True, field_types={"_model": "CovModel"}, **kw)
         stats[cname] = st
         for e in edges:
             if e.derived not in st["fields_written"] or (e.source not in st["fields_written"]):
@@ -66,6 +66,8 @@ def is_type_expr(prog, mod, e):
 LINT_IS_EXEMPT = {
     ("field/cond_srf.py", "CondSRF.__call__", "self.krige[krige_name[1]] is self._krige_var_ref"):
         "object provenance of a cached ARRAY: the raw kriging field may be reused only with the very variance object it was computed with (R07.8); a value comparison would be wrong",
+    ("field/cond_srf.py", "CondSRF.__call__", "self[name[2]] is self._raw_krige_ref"):
+        "object provenance of a cached ARRAY: the stored raw kriging field must be the very array that was stored together with the remembered variance (R07.8, repair 5bf918c)",
 }
 
 
@@ -393,6 +395,8 @@ def run(ctx):
     from . import C15_kernels as _K
 
     _K.accumulator_reset(ctx, rule="R11.11")  # mode-summation kernels: phase reset per mode, every point and mode visited (shared with C15)
+    _K.accumulator_complete(ctx, rule="R11.11")
+    _K.build_independent(ctx, rule="R11.11")
     _K.full_extent(ctx, rule="R11.11")
     _K.zero_init(ctx, rule="R11.11")
     from . import C15_bounds
